@@ -7,7 +7,7 @@ run against that worktree (VERIF_REPO) and write their evidence/replays to a scr
 The Lean side is skipped here (the shared Generated/Tables.lean must not be regenerated from a mutated tree);
 Tie-theorem detections are recorded by tools/try_seeded.py.
 
-usage: tools/matrix.py [props=all|C01,C02] [seeded ids…]   -> writes seeded/MATRIX.json and prints a table
+usage: tools/matrix.py [props=all|target|C01,C02] [seeded ids…]   -> writes seeded/MATRIX.json and prints a table
 """
 import concurrent.futures as cf
 import json
@@ -51,13 +51,14 @@ def run_one(sid, props):
 
 def main():
     props = sys.argv[1] if len(sys.argv) > 1 else "all"
-    props = [f"C{i:02d}" for i in range(1, 21)] if props == "all" else props.split(",")
+    target_only = props == "target"      # every change against the check of the property it was written for
+    props = [f"C{i:02d}" for i in range(1, 21)] if props in ("all", "target") else props.split(",")
     ids = sys.argv[2:] or sorted(d for d in os.listdir(os.path.join(ROOT, "seeded"))
                                  if os.path.isdir(os.path.join(ROOT, "seeded", d)))
     path = os.environ.get("MATRIX_FILE") or os.path.join(ROOT, "seeded", "MATRIX.json")
     matrix = json.load(open(path)) if os.path.exists(path) else {}
     with cf.ThreadPoolExecutor(max_workers=5) as ex:
-        for sid, res in ex.map(lambda s: run_one(s, props), ids):
+        for sid, res in ex.map(lambda s: run_one(s, [s.split("-")[0]] if target_only else props), ids):
             matrix.setdefault(sid, {}).update(res)
             caught = [p for p, rc in sorted(matrix[sid].items()) if rc == 1]
             print(f"{sid}: caught by {caught}", flush=True)
